@@ -335,12 +335,17 @@ Definition predict_write (t0 eff : Z) (stall tcp : bool) (clo chi creq : Z) : cl
   else if tcp then (if known chi then CLOSED else BLOCKED)
   else if 0 <? eff then TIMEOUT else if known chi then CLOSED else BLOCKED.
 
-(* Close of a session / mux: first = the first Close of that object; stall as above.  bound in us. *)
-Definition accept_close (bound t0 t1 : Z) (first stall tcp : bool) (obs : cls) : bool :=
+(* Close of a session / mux: first = the first Close of that object; stall as above.  bound in us.
+   rearm = finding-tagged outcome (C15_event_loop_rearms): the server underlay event loop woke up before done was
+   closed / picked a pending clean tick, re-armed its read timeout rt, and Mux.Close waits for it: the Close then
+   returns within rt + bound, or is still blocked at the horizon. *)
+Definition accept_close (bound rt t0 t1 : Z) (first stall tcp rearm : bool) (obs : cls) : bool :=
   match obs with
-  | OK => known t1 && ((t1 - t0 <=? bound) || (stall && tcp))
-  | BLOCKED => (t1 =? -1) && stall && tcp
+  | OK => known t1 && ((t1 - t0 <=? bound) || (stall && tcp) || (rearm && (t1 - t0 <=? rt + bound)))
+  | BLOCKED => (t1 =? -1) && ((stall && tcp) || rearm)
   | _ => false
   end.
 
-Definition predict_close (stall tcp : bool) : cls := if stall && tcp then BLOCKED else OK.
+Definition read_timeout_us : Z := C15_readOneSegmentTimeout_ns / 1000.
+
+Definition predict_close (stall tcp rearm : bool) : cls := if (stall && tcp) || rearm then BLOCKED else OK.
